@@ -131,3 +131,47 @@ MANIFEST_TEXT["C11"] = dict(
     note=_BASE_NOTE + "The text layer of serde_json is environment (model stops at an abstract JSON tree). Non-finite floats are outside the property (not JSON-representable).",
     technique="Lean 4 proof (round-trip by structural induction, fuel for error chains) + differential correspondence + JSON-schema validation",
 )
+
+_RECV_NOTE = (_BASE_NOTE + "Environment modelled, not verified: the host subscriber (fresh ids 1,2,3…, Registry-style span stack), "
+              "tracing-core's ValueSet/Attributes/Event plumbing, the process-wide arena in its sequential view, HashMap/HashSet as "
+              "finite maps (finalize batches are compared sorted). The serde round trip at a cut is the identity by C11 and is "
+              "executed for real by harness and driver at every cut. ")
+MANIFEST_TEXT["C06"] = dict(
+    text="Theorem over every history (any events, persist with kept/lost map/new host, discard) under the proviso that a span id "
+         "is not re-announced while alive: try_receive never panics, returns ok iff the reference bookkeeping (known call sites, "
+         "alive spans) gives no reason to reject, and otherwise reports the first applicable reason (C06_total_exact and "
+         "corollaries). Proved by a simulation invariant between receiver state and bookkeeping (TT/Lemmas/RecvSim*). The model "
+         "keeps explicit panic outcomes (unreachable!(), indexing, underflow), so totality is a theorem about reachable states. "
+         "Tied to the real receiver by exhaustive sequences over a 15-symbol alphabet and long random / mutated streams with "
+         "up to 64-field call sites across restore histories.",
+    note=_RECV_NOTE, technique="Lean 4 proof (simulation invariant over histories) + differential correspondence + reference-bookkeeping oracle")
+MANIFEST_TEXT["C07"] = dict(
+    text="Theorems: whenever tryReceive returns an error the entire state (receiver, arena, host log, host stack) is unchanged "
+         "(C07_reject_no_effect, by case analysis of every arm: all fallible lookups precede the first mutation or host call), and "
+         "running any history equals running it with the rejected events removed (C07_filter). Correspondence as C06; the harness "
+         "additionally replays every stream without its rejected events on the real code and compares host logs and persisted state.",
+    note=_RECV_NOTE, technique="Lean 4 proof (case analysis + induction over histories) + differential correspondence + pairwise filtered-run oracle")
+MANIFEST_TEXT["C02"] = dict(
+    text="Theorems: (1) at every point of every history the receiver's persistable spans/metadata are lookup-equal to the reference "
+         "bookkeeping of the effective event history, which mentions neither cuts nor hosts (C02_persisted_is_spec, "
+         "C02_independent_of_cuts); (2) cutting any event stream with persist+restore (map kept) at points where the receiver holds no "
+         "entered span leaves host log, host stack, arena and all acceptance results identical to the uncut run (C02_cut_invisible, "
+         "any stream, any initial world with a duplicate-free arena). Correspondence: real persist / serde_json round trip / new at "
+         "every cut, persisted JSON compared with the model and with the bookkeeping; cut-vs-uncut runs compared on the real code.",
+    note=_RECV_NOTE + "Quiescence is stated on the receiver's entered map (equal to the guest's enter/exit balance for well-formed streams; that equality is exercised by the harness, not proved).",
+    technique="Lean 4 proof (simulation invariant; restore∘persist = id up to the uncommitted set) + differential correspondence")
+MANIFEST_TEXT["C04"] = dict(
+    text="Theorems over every history whose only well-formedness assumption is that the last handle of a span is not dropped while it "
+         "is entered: after persist or drop the host span stack equals the stack before the chain processed anything (arbitrary base "
+         "stack; nested, re-entrant, non-LIFO enters) (C04_stack_restored); persist emits only exits; drop closes exactly the host spans "
+         "of the uncommitted guest spans, once each; the uncommitted set starts empty in every lifetime, grows by accepted new_span ids, "
+         "shrinks on last drop, is duplicate-free and contains only alive spans. Model of the repaired code (enter counts). The retry "
+         "clause is checked by the harness against the real code (pairwise runs) and follows from C06/C02 at the bookkeeping level.",
+    note=_RECV_NOTE, technique="Lean 4 proof (stack-counting invariant over histories) + differential correspondence + abort-at-every-prefix oracles")
+MANIFEST_TEXT["C08"] = dict(
+    text="Theorems for every event sequence and every history (map kept, lost on same or new host, discard), from any well-used initial "
+         "host: every span id passed to the host was issued by it earlier and not yet closed, nothing is closed twice (C08_id_discipline, "
+         "C08_never_closes_twice); the drop of the last handle closes exactly loc[g] and removes the entry, other drops are silent; with "
+         "the map preserved a run that ends with no alive guest span has an empty local map and every issued host span closed "
+         "(C08_complete_run). Correspondence on a strict recording subscriber that flags any misuse.",
+    note=_RECV_NOTE, technique="Lean 4 proof (id-discipline invariant over histories) + differential correspondence + strict-subscriber oracle")
